@@ -403,6 +403,68 @@ func rangeCase(c *core.Ctx, w *world, code byte) {
 		map[string]interface{}{"code": code, "wait_returned_at_once": returnedAtOnce, "no_panic": noPanic, "released_by_broadcast": released})
 }
 
+// agedCase: after n earlier requests with the code (n-1 of them delivered straight to the shim's Broadcast, the
+// way ServeAgent delivers every request's first byte, the last one through a client connection when the code
+// is a listing request), a fresh waiter still parks, stays parked while other codes are requested, and is
+// released by the next request with its code.
+func agedCase(c *core.Ctx, n int, code byte) {
+	w, err := newWorld()
+	if err != nil {
+		c.Native("cannot start the yubiagent server: "+err.Error(), nil)
+		return
+	}
+	defer w.close()
+	input := map[string]interface{}{"earlier_requests_with_the_code": n, "code": code}
+	for i := 0; i < n-1; i++ {
+		_ = w.shim.Broadcast(code)
+	}
+	req, _, err := w.connect()
+	if err != nil {
+		c.Native("cannot connect: "+err.Error(), input)
+		return
+	}
+	if code == yubiagent.AgentMessageRequestIdentities {
+		_, _ = req.List()
+	} else {
+		_ = w.shim.Broadcast(code)
+	}
+	cl, _, err := w.connect()
+	if err != nil {
+		c.Native("cannot connect: "+err.Error(), input)
+		return
+	}
+	done := make(chan error, 1)
+	go func() { done <- cl.Wait(code) }()
+	deadline := time.Now().Add(3 * time.Second)
+	for w.shim.VerifWaiters(code) == 0 && time.Now().Before(deadline) {
+		select {
+		case <-done:
+			c.Native(fmt.Sprintf("Wait(%d) returned although no request with that code arrived after the waiter registered (the agent had seen %d earlier requests with the code)", code, n), input)
+			return
+		case <-time.After(2 * time.Millisecond):
+		}
+	}
+	// other codes do not release it
+	_ = w.shim.Broadcast(code ^ 1)
+	select {
+	case <-done:
+		c.Native(fmt.Sprintf("Wait(%d) was released by a request with another code (after %d earlier requests)", code, n), input)
+		return
+	case <-time.After(60 * time.Millisecond):
+	}
+	if code == yubiagent.AgentMessageRequestIdentities {
+		_, _ = req.List()
+	} else {
+		_ = w.shim.Broadcast(code)
+	}
+	select {
+	case <-done:
+		c.NativeCheck(1)
+	case <-time.After(3 * time.Second):
+		c.Native(fmt.Sprintf("Wait(%d) still blocked 3 s after the next request with its code (lost wake-up after %d earlier requests)", code, n), input)
+	}
+}
+
 func runC20(c *core.Ctx) {
 	r := c.Rng
 	W := func(w int, code byte) cev { return cev{true, w, code} }
@@ -463,6 +525,14 @@ func runC20(c *core.Ctx) {
 			}
 		}
 		runSched(c, fmt.Sprintf("random-%dw-%dcodes", nw, ncodes), evs)
+	}
+
+	// long-lived agents: the rule must not depend on how many requests with the code were seen before
+	// (counters of 8 / 16 bits wrap at exactly these histories)
+	for _, n := range []int{1, 255, 256, 257, 65535, 65536, 65537} {
+		for _, code := range []byte{11, 39} {
+			agedCase(c, n, code)
+		}
 	}
 
 	// the range rule on all 256 codes, directly on the shim
